@@ -292,7 +292,10 @@ def _upvar_index(t):
 def _closure_of(b, op):
     p = op_place(op)
     if p is None:
-        return None
+        # a plain function passed by name (`sort_by_key(key_fn)`)
+        from mir import op_const
+        k = op_const(op)
+        return k.get("fn") if k else None
     defs = b.defs().get(p["l"], [])
     for d in defs:
         if d[0] == "assign" and d[3]["rv"]["k"] == "closure":
@@ -329,6 +332,54 @@ def _sort_dominating(F, b, vec_local, sink_bb, wr):
         if r and r[0] in al and not r[1] and (b.dominates(bi, sink_bb)):
             return m, t, b.loc(t["sp"])
     return None
+
+
+_ORDER_PRESERVING = ("map", "filter", "filter_map", "into_iter", "iter", "cloned", "copied", "map_while", "inspect", "into_values", "values")
+
+
+def _ascending_by_construction(F, b):
+    """the returned list is collected from the in-order traversal of a BTreeMap keyed by the tax year (u16 / TaxPeriod),
+    through order-preserving adapters only, and each element's period is built from its key"""
+    tb = Terms(F, b, inline_depth=0)
+    ret = tb.local(0)
+    alts = ret[1] if isinstance(ret, tuple) and ret and ret[0] == "phi" else (ret,)
+    good = 0
+    for a in alts:
+        if isinstance(a, tuple) and a and a[0] == "call" and parse_callee(a[1])[2] == "from_residual":
+            continue
+        if isinstance(a, tuple) and a and a[0] == "agg" and a[2] == "Ok":
+            a = dict(a[3]).get("0")
+        if not (isinstance(a, tuple) and a and a[0] == "call" and parse_callee(a[1])[2] == "collect"):
+            return None
+        x = a[2][0]
+        closures = []
+        while isinstance(x, tuple) and x and x[0] == "call" and parse_callee(x[1])[2] in _ORDER_PRESERVING:
+            closures += [y for y in x[2][1:] if isinstance(y, tuple) and y and y[0] == "closure"]
+            x = x[2][0]
+        if not (isinstance(x, tuple) and x and x[0] == "var"):
+            return None
+        tys = [b.local_ty(l) for l in range(1, len(b.locals)) if b.local_name(l) == x[1]]
+        if not tys or not any(t.startswith(("alloc::collections::btree::map::BTreeMap<u16,", "alloc::collections::btree::map::BTreeMap<cgt_core::models::TaxPeriod,"))
+                              for t in tys):
+            return None
+        keyed = any(t.startswith("alloc::collections::btree::map::BTreeMap<cgt_core::models::TaxPeriod,") for t in tys)
+        for y in closures:
+            cb = F.bodies.get(y[1])
+            if cb is None:
+                continue
+            ct = Terms(F, cb, inline_depth=0)
+            for i, t in cb.calls():
+                if t["callee"].endswith("TaxPeriod::new"):
+                    k = ct.operand(t["args"][0])
+                    if isinstance(k, tuple) and k[0] == "cast":
+                        k = k[-1]
+                    if k == ("field", ("param", 1, cb.local_name(2)), "0") or (isinstance(k, tuple) and k[0] == "field" and k[2] == "0"
+                                                                                 and isinstance(k[1], tuple) and k[1][0] == "param" and k[1][1] == 1):
+                        keyed = True
+        if not keyed:
+            return None
+        good += 1
+    return "summaries are collected from the in-order traversal of a BTreeMap keyed by tax year (ascending by construction)" if good else None
 
 
 def stated_orders(F, rep):
@@ -397,6 +448,10 @@ def stated_orders(F, rep):
                 ok = key_ok and cuts and "unstable" not in m
                 detail = (f"summaries sorted by period start year ({m}) on every path that returns them" if ok else
                           f"sort present ({m}) but key_ok={key_ok} on_all_paths={cuts}")
+            if not found:
+                why = _ascending_by_construction(F, b)
+                if why:
+                    ok, detail = True, why
             rep.ob("R4", f"{b.short}:tax-years-ascending", ok, detail, b.loc(), key=f"R4:{b.short}:tax-years-ascending")
     # (c) disposals by (date, ticker): fns returning Vec<Disposal>
     for b in F.bodies.values():
